@@ -2,6 +2,7 @@ import AvroModel.Drv.Sexp
 import AvroModel.Drv.C17
 import AvroModel.Drv.Enc
 import AvroModel.Drv.CodecDrv
+import AvroModel.Drv.Mal
 import AvroModel.Drv.Time
 import AvroModel.Drv.Bank
 import AvroModel.Drv.Conc
@@ -15,6 +16,7 @@ def dispatch (prop : String) (op : String) (args : List Sexp) : Verdict :=
   | "C03" => c03 op args
   | "C04" => c04 op args
   | "C13" => c13 op args
+  | "C06" => c06 op args
   | "C02" => c02 op args
   | "C18" => c18 op args
   | "C19" => c19 op args
